@@ -2,6 +2,7 @@ import Rivaas.Spec.Chain
 import Rivaas.Spec.Compose
 import Rivaas.Lemmas.ChainSim
 import Rivaas.Lemmas.ComposeSound
+import Rivaas.Lemmas.ComposeMount
 import Rivaas.Model.ComposeAsIs
 /-
 C02 — Handler chains run in composition order, once per position, and stop on abort.
@@ -500,6 +501,43 @@ example :
     (levels script { mounts := [], route := 5 }).isSome = true ∧
     compose script none [1, 2, 3] = some [1, 2, 3, 5, 6] ∧
     compose script (some 1) [4] = some [1, 9, 10, 11, 12, 13] := by decide
+
+
+/-! ### composition order and isolation through `Mount` -/
+
+open Rivaas.Compose in
+/-- **Composition order + isolation, `Mount` included (partial: no sub-router is warmed up before it
+    is mounted).** For every well-formed configuration script (`wfB`) in which only the serving
+    router is warmed up explicitly (`subsColdB` — a sub-router warmed up before `Mount` is the
+    recorded finding K02b), and every route reachable on the serving router through any nesting
+    of mounts (`levels script tg` resolves): the handler slice the model composes exists and is
+    admitted by the oracle — the serving router's global middleware, then per mount (outermost
+    first) the parent's middleware again under `InheritMiddleware` (test-pinned), the sub-router's
+    middleware, the `WithMiddleware` extras, then the groups from the outermost to the innermost,
+    then the route's own handlers; everything attached to an enclosing scope before the route (or
+    the nested scope, or the mount) came into being is present, in attach order; nothing from any
+    scope outside occurs. Generalises `compose_admitted_partial`. -/
+theorem compose_admitted_mounts_partial (script : List Op) (hwf : wfB script = true)
+    (hcold : subsColdB script = true) (tg : Target) (ver : Option Nat) (path : Path) (ls : List Level)
+    (hl : levels script tg = some (ver, path, ls)) :
+    ∃ chain, compose script ver path = some chain ∧ chainOK script tg chain = true := by
+  obtain ⟨chain, h1, h2⟩ := compose_admitted_mount script (wfm_of_wfB script hwf)
+    (subsCold_of_subsColdB script hcold) tg ver path ls hl
+  exact ⟨chain, h1, by simp [chainOK, hl, h2]⟩
+
+open Rivaas.Compose in
+/-- non-vacuity: a route declared in a group of router 2, router 2 mounted into router 1 (with
+    extras), router 1 mounted into the serving router with `InheritMiddleware`; middleware attached
+    to every router before and after — well-formed, cold, the target resolves, and the chain is
+    global 1,9 · inherited 1 · router-1 middleware 2 · (inner mount:) router-2 middleware 3 · extra 7 ·
+    group 4 · handler 5 (8 was attached to router 2 after its mount, 9 to the serving router after) -/
+example :
+    let script : List Op := [.newRouter, .newRouter, .use 0 [1], .use 1 [2], .use 2 [3], .group 2 1 [4],
+                             .route (.group 0) 2 [5], .mount 1 2 3 false [7], .use 2 [8], .mount 0 1 4 true [], .use 0 [9]]
+    let tg : Target := { mounts := [9, 7], route := 6 }
+    wfB script = true ∧ subsColdB script = true ∧ (levels script tg).isSome = true ∧
+    compose script none [4, 3, 1, 2] = some [1, 9, 1, 2, 3, 7, 4, 5] ∧
+    chainOK script tg [1, 9, 1, 2, 3, 7, 4, 5] = true := by decide
 
 
 end Rivaas.C02
